@@ -78,6 +78,14 @@ def r03a(chk, rid='R03.a'):
     from sa.absint import Evaluator
 
     esc = writer_escapes(m, fn, forbidden.chars(limit=40) + ["'"])
+    # a value never ends in a way that escapes the closing quote: a parsed value that ends with n
+    # escaped backslashes is stored with 2n-1 of them
+    for k in (1, 3, 5):
+        got = Evaluator(fn, module=m).run(value='dir' + '\\' * k)
+        body = got[1:-1] if isinstance(got, str) and len(got) >= 2 else ''
+        trail = len(body) - len(body.rstrip('\\'))
+        chk.ob(rid, HELPER, 'string', f'a value ending in {k} backslash(es) is written with an even number of them before the closing quote', isinstance(got, str) and got.endswith('"') and trail % 2 == 0,
+               f'written as {got!r}: the last backslash escapes the closing quote and the string swallows what follows')
     plain = Evaluator(fn, module=m).run(value='x')
     chk.ob(rid, HELPER, 'string', 'the writer always uses double quotes (the reader side is string1)', plain == '"x"', f"string('x') gives {plain!r}")
     names = {'\n': 'line feed', '\r': 'carriage return', '\f': 'form feed', '\\': 'backslash', '"': 'double quote'}
